@@ -111,7 +111,8 @@ Cands(t) ==
     [] t = "CalendarDateRange" -> {Tup(<<D(2), D(4)>>), Tup(<<D(3), D(3)>>), Tup(<<D(1), D(3)>>), Tup(<<D(3), D(5)>>), Tup(<<D(3), D(2)>>),
                                    Tup(<<I(1), I(2)>>), Tup(<<S("a1"), S("zz")>>), None}
     [] t = "List" -> {Lst(<<>>), Lst(<<I(1)>>), Lst(<<I(1), I(2)>>), Lst(<<I(1), I(2), I(3)>>), Lst(<<S("a1")>>), Lst(<<I(1), S("a1")>>),
-                      Lst(<<S("a1"), S("zz"), S("")>>), Tup(<<I(1)>>), None, I(1), S("a1")}
+                      Lst(<<S("a1"), S("zz"), S("")>>), Tup(<<I(1)>>), None, I(1), S("a1"),
+                      Lst(<<I(1), None>>), Lst(<<None, S("a1")>>), Lst(<<None>>)}
     [] t = "HookList" -> {Lst(<<>>), Lst(<<Call>>), Lst(<<Call, Call>>), Lst(<<Call, Call, Call>>), Lst(<<Call, I(1)>>), Lst(<<I(1)>>),
                           Tup(<<Call>>), None, Call}
     [] t = "Selector" -> {S("a"), S("b"), S("c"), None, I(1)}
